@@ -856,7 +856,7 @@ func main() {
 		unp := vlib.Pick(c,
 			[][]string{{"st", "tmp", unpackRoot}, {"a", unpackRoot, "st", "tmp", unpackRoot}},
 			[][]string{{"st", "tmp", unpackRoot}, {unpackRoot + "-other", "st", "tmp", unpackRoot}, {"a", unpackRoot, "st", "tmp", unpackRoot}})
-		stateSeg := map[string]int{"fstree": vlib.Pick(c, 3, 4), "dirstruct": vlib.Pick(c, 2, 4), "scan": vlib.Pick(c, 2, 4), "unpack": vlib.Pick(c, 2, 4)}
+		stateSeg := map[string]int{"fstree": vlib.Pick(c, 3, 4), "dirstruct": vlib.Pick(c, 2, 3), "scan": vlib.Pick(c, 2, 3), "unpack": vlib.Pick(c, 2, 3)}
 		sets := []rootSet{
 			{"fstree", []string{"Put", "Get", "Delete", "Query"}, plain, []string{""}},
 			{"dirstruct", []string{"EnsureAbsPath", "EnsureRelPath", "EnsureRelDir"}, plain, []string{""}},
